@@ -250,14 +250,20 @@ def check_nd(rec: core.Recorder, h, rows: np.ndarray, weights: Optional[np.ndarr
     exp_f, exp_e = model.dense(shape, f), model.dense(shape, e)
     res_dtype = np.dtype(h.dtype)
     exact = model.exact_weights_ok(weights)
+    if res_dtype.kind in "iu":
+        top = float(np.iinfo(res_dtype).max)
+        if max(float(np.max(exp_f, initial=0)), float(np.max(exp_e, initial=0)), float(missed)) > top:
+            fail("sums that do not fit the integer content type were stored in it (wrapped around) instead of being refused or widened", ["frequencies", "errors2", "missed"],
+                 dtype=str(res_dtype), biggest_content=float(np.max(exp_f, initial=0)), biggest_error2=float(np.max(exp_e, initial=0)), missed=float(missed))
+            return False
     if exact:
         with np.errstate(over="ignore", invalid="ignore"):
             f_ok = np.array_equal(freq.astype(float), exp_f.astype(res_dtype).astype(float))
             e_ok = np.array_equal(err2.astype(float), exp_e.astype(res_dtype).astype(float))
-        m_ok = float(h.missed) == float(missed)
+            m_ok = float(h.missed) == float(np.asarray(float(missed)).astype(res_dtype))
     else:
         n = max(1, len(rows))
-        aw = np.abs(weights) if weights is not None else np.ones(1)
+        aw = np.abs(np.asarray(weights, dtype=float)) if weights is not None else np.ones(1)
         eps = float(np.finfo(res_dtype).eps) if res_dtype.kind == "f" else 2.3e-16
         tol_f = 4 * n * eps * float(aw.sum() + 1e-300)
         f_ok = bool(np.all(np.abs(freq.astype(float) - exp_f) <= tol_f))
